@@ -45,12 +45,16 @@ class IdealExperiment:
         permeance = Permeance(value=d["permeance"], units=d["units"]).convert(
             to_units=Units.kg_m2_h_kPa, component=component
         )
+        # a blank cell of a .csv table is read as NaN: no activation energy is stated
+        activation_energy = d["activation_energy"]
+        if pandas.isna(activation_energy):
+            activation_energy = None
         return cls(
             name=d["name"],
             temperature=d["temperature"],
             component=component,
             permeance=permeance,
-            activation_energy=d["activation_energy"],
+            activation_energy=activation_energy,
             comment=d["comment"],
         )
 
